@@ -656,7 +656,7 @@ def run_grid(ctx, scen_sets, obs_mask, prop, chunk=None, timeout=240, variant="h
                 owner = "C08"
             st = ev.get("st", {})
             sig = "%s:%s:%s:%s%s" % (ev.get("e", "?"), name, st.get("fam", "?"), sig_detail(ev, rj), sig_suffix(ev, (rj["raw_req"] or [""])[0]))
-            if name == "obs-nodal" and ev.get("e") in ("loadc", "finish") and prop == "C09":
+            if name == "obs-nodal" and ev.get("e") == "finish" and prop == "C09":
                 owner = "C09"         # the surrogate of a constructed grid differs from the one-batch surrogate: C01 and C09 both own it
             if name == "need" and owner == "C08" and ev.get("e") in ("surp", "surpl") and prop == "C07":
                 owner = "C07"         # a surplus refinement under level limits that does not propose the documented children: C07 and C08 both own it
